@@ -3,6 +3,7 @@ package main
 import (
 	"context"
 	"flag"
+	"time"
 
 	"golang.org/x/tools/go/ssa"
 	"fmt"
@@ -149,7 +150,11 @@ var onlyObl string
 func verifyFn(P *Program, fn *ssa.Function, ct *Contract, opt solveOpts) *FnResult {
 	disabled := map[string]bool{}
 	var dropped []string
+	began := time.Now()
 	for round := 0; round < 6; round++ {
+		if round > 0 && time.Since(began) > 200*time.Second {
+			break
+		}
 		res := translate(P, fn, ct, disabled)
 		if res.Panic != "" {
 			return res
